@@ -379,13 +379,23 @@ impl Child {
     /// exited with. This function will consume the child. To get the output,
     /// either take `stdout` and `stderr` out before calling it, or call
     /// [`Child::wait_with_output`].
-    pub async fn wait(self) -> io::Result<process::ExitStatus> {
+    ///
+    /// The stdin handle to the child process, if any, will be closed before
+    /// waiting, as [`std::process::Child::wait`] does: this call consumes the
+    /// child, so nobody else could close it, and a child that reads its input
+    /// to the end would never exit.
+    pub async fn wait(mut self) -> io::Result<process::ExitStatus> {
+        drop(self.stdin.take());
         sys::child_wait(self.child).await
     }
 
     /// Simultaneously waits for the child to exit and collect all remaining
     /// output on the stdout/stderr handles, returning an Output instance.
+    ///
+    /// The stdin handle to the child process, if any, will be closed before
+    /// waiting.
     pub async fn wait_with_output(mut self) -> io::Result<process::Output> {
+        drop(self.stdin.take());
         let status = sys::child_wait(self.child);
         let stdout = if let Some(stdout) = &mut self.stdout {
             Either::Left(stdout.read_to_end(vec![]))
